@@ -26,7 +26,16 @@ chk.extra['rule'] = (
     '2-3 molecules with different force-field variables) count if bonds are emitted and the resolved separation '
     'differs between applications; region cases count if regions overlap and the pair shares one; '
     'distinct = distinct protocol line')
-chk.lean(['VermouthProps.C15'], 'driver_c15')
+import c15_cli
+CLI_X, CLI_ERR = None, None
+try:
+    CLI_X = c15_cli.extract(REPO)
+except Exception as e:  # noqa
+    CLI_ERR = '%s: %s' % (type(e).__name__, e)
+chk.lean(['VermouthProps.C15', 'VermouthProps.C15_Cli'], 'driver_c15',
+         generated={'C15Cli.lean': CLI_X['lean']} if CLI_X else None)
+if CLI_ERR:
+    chk.broken.append(('extract:martinize2-elastic-options', CLI_ERR))
 chk.trusted += [
     'harness/c15.py: molecule builder, canonicaliser, independent oracle (five criteria by the property text, residue '
     'distances by networkx single_source_shortest_path_length on its own residue graph), numeric oracle for the decay '
@@ -67,6 +76,58 @@ LOG = quiet_vermouth_logs()
 LOG.setLevel(logging.DEBUG)
 HANDLER = ListHandler()
 LOG.addHandler(HANDLER)
+
+
+# ---- real command-line runs: started now in a forked child, collected at the end ------------------------------
+def cli_opts(**kw):
+    o = {'elastic': True, 'go': False, 'ff': 'martini3001', 'ff_given': False, 'floats': {}, 'ermd': None, 'eb': None,
+         'eunit': None, 'other': [], 'nres': 8, 'shift': 14.0, 'finish': False}
+    o.update(kw)
+    return o
+
+
+CLI_RUNS = [
+    cli_opts(),                                                  # two molecules, every default, force-field variables
+    cli_opts(other=['-merge', 'A,B'], eunit='3:6,5:12', eb='BB,SC1', ermd='0', finish=True,
+             floats={'-ef': '500', '-el': '0.5', '-eu': '1.0', '-ea': '1', '-ep': '1', '-em': '10'}),
+]
+if chk.thorough:
+    CLI_RUNS += [
+        cli_opts(elastic=False, ff='elnedyn22', ff_given=True, eunit='all'),
+        cli_opts(other=['-merge', 'A,B'], eunit='chain', ermd='1', eb='BB,SC1,SC2'),
+        cli_opts(eunit='1:2:3'),
+        cli_opts(eunit='a:b'),
+        cli_opts(go=True),
+        cli_opts(ermd='2.0'),
+        cli_opts(other=['-merge', 'A,B'], eunit='-3:4,20:6', floats={'-ea': '0.5', '-ep': '2', '-el': '0.4', '-eu': '0.8984375'},
+                 ermd='3'),
+        cli_opts(eunit='all', floats={'-em': '700'}, shift=10.0),
+        cli_opts(eunit='all', ermd='0', eb='', shift=10.0),
+    ]
+
+
+def cli_argv(o):
+    return c15_cli.argv_of(None, o) + list(o['other'])
+
+
+def cli_probes(extra):
+    unit = None
+    for i, a in enumerate(extra):
+        if a == '-eunit' and i + 1 < len(extra):
+            unit = extra[i + 1]
+        elif a.startswith('-eunit='):
+            unit = a[len('-eunit='):]
+    return c15_cli.probes_for(None, unit)
+
+
+CLI_HANDLE = None
+if CLI_X is not None and not chk.replay:
+    if chk._cov is not None:
+        chk._cov.stop()         # the child would trace a whole command-line run line by line
+    CLI_HANDLE = c15_cli.start_cli_runs(REPO, [(cli_argv(o), o['nres'], o['shift'], o['finish']) for o in CLI_RUNS],
+                                        cli_probes)
+    if chk._cov is not None:
+        chk._cov.start()
 
 
 # ----------------------------------------------------------------------------
@@ -116,7 +177,7 @@ def run_real(spec):
     else:
         selector = functools.partial(selectors.proto_select_attribute_in, attribute='atomname', values=list(p['names']))
     dom = domain_callable(p['dom'])
-    upper = p['U'] / UNIT
+    upper = upper_float(p)
     HANDLER.records[:] = []
     exc = None
     try:
@@ -168,6 +229,17 @@ def near_thr(k, thr):
 
 def close(x, k):
     return x == k or abs(x - k) <= TOL * max(abs(k), 1e-300)
+
+
+def upper_float(p):
+    return p['upper'] if 'upper' in p else p['U'] / UNIT
+
+
+def upper2_of(p):
+    """squared cut-off in lattice units: d <= upper  <=>  d2 <= floor((256 upper)^2)   (upper >= 0)"""
+    if 'upper' not in p:
+        return p['U'] * p['U']
+    return int(math.floor((Fraction(p['upper']) * UNIT) ** 2))
 
 
 def pos_of(a):
@@ -233,7 +305,7 @@ def protocol_line(spec, ktab):
     else:
         dom = [2, [list(r) for r in p['dom'][1]]]
     sep = p['sep']
-    params = [list(p['names']), sep, p['U'] * p['U'], frac(p['base']), frac(p['minf']),
+    params = [list(p['names']), sep, upper2_of(p), frac(p['base']), frac(p['minf']),
               [[d2] + frac(k) for d2, k in sorted(ktab.items())], dom]
     return line('run', atoms, [list(e) for e in spec['edges']], params)
 
@@ -282,7 +354,7 @@ def criteria_table(spec, ktab_fn):
             pa, pb = pos_of(a), pos_of(b)
             if pa is not None and pb is not None:
                 d2 = d2_of(pa, pb)
-                distok = d2 <= p['U'] ** 2
+                distok = d2 <= upper2_of(p)
                 k = ktab_fn(d2)
                 forceok = k > p['minf']
             else:
@@ -510,7 +582,7 @@ def gen_spec(rng, decay, big=False):
 # ----------------------------------------------------------------------------
 # run
 # ----------------------------------------------------------------------------
-def evaluate(cid, spec, stream):
+def evaluate(cid, spec, stream, real=None):
     p = spec['params']
     p['sep'] = effective_sep(spec)
     sel = selected_atoms(spec)
@@ -534,7 +606,7 @@ def evaluate(cid, spec, stream):
         chk.count('excluded_near_minimum_force')
         return None
     ktab_fn = (lambda d2: p['base']) if exact else (lambda d2: ktab[d2] if d2 in ktab else k_expected(p, d2))
-    exc, rubber, warns, intact = run_real(spec)
+    exc, rubber, warns, intact = run_real(spec) if real is None else real
     table = criteria_table(spec, ktab_fn)
     errs = oracle(spec, exc, rubber, warns, intact, table, ktab_fn)
     # canonical form of the real result
@@ -573,7 +645,7 @@ def evaluate(cid, spec, stream):
     chk.count('via_' + p['via'])
     chk.count('sep=%d' % p['sep'])
     chk.count('outcome_' + impl.split()[0])
-    n_at = sum(1 for v in table.values() if v[0] and v[5] == p['U'] ** 2)
+    n_at = sum(1 for v in table.values() if v[0] and v[5] == upper2_of(p))
     if n_at:
         chk.count('cases_with_selected_pair_exactly_at_cutoff')
     idx = [i for i, a in enumerate(spec['atoms']) if a in sel]
@@ -956,6 +1028,79 @@ reg_models = chk.drv.ask(reg_lines) if chk.lean_ok else [None] * len(reg_lines)
 for ln, (cid, impl, errs, nt), mo in zip(reg_lines, reg_meta, reg_models):
     chk.case(cid, ln, impl, mo, errs, nt)
 
+
+# ---- the command-line layer -------------------------------------------------------------------------------------
+def cli_line(o, probes):
+    fl = [frac(float(o['floats'][f])) if f in o['floats'] else None for f in ('-ef', '-el', '-eu', '-ea', '-ep', '-em')]
+    return line('cli', bool(o['elastic']), bool(o['go']), o['ff'], *fl, o['ermd'], o['eb'], o['eunit'], probes)
+
+
+if CLI_X is not None:
+    # (a) int(): the model's pyInt against Python on random ASCII strings
+    rng = chk.rng('pyint')
+    ALPH = '0123456789' * 3 + '+-_ \t\n\r\x0b\x0c' + '.xeE:,a\x1c'
+    ilines, imeta = [], []
+    for i in range(6000 if chk.thorough else 700):
+        if rng.random() < 0.5:
+            st = c15_cli.decorate_int(rng, rng.choice([0, 1, 7, 10, 12, 105, 2024, -3, -10, -999]))
+            if rng.random() < 0.3:
+                k = rng.randrange(len(st) + 1)
+                st = st[:k] + rng.choice(ALPH) + st[k:]
+        else:
+            st = ''.join(rng.choice(ALPH) for _ in range(rng.choice([0, 1, 1, 2, 3, 4, 6])))
+        try:
+            impl = str(int(st))
+        except ValueError:
+            impl = '-'
+        errs = []
+        if (impl != '-') != c15_cli.is_int_literal(st):
+            errs.append('int(%r) %s, the documented literal grammar says otherwise' % (st, 'accepted' if impl != '-' else 'rejected'))
+        chk.count('pyint_' + ('accepted' if impl != '-' else 'rejected'))
+        ilines.append(line('pyint', st))
+        imeta.append(('pyint-%d' % i, impl, errs, impl != '-' and st.strip() != impl))
+    for ln, (cid, impl, errs, nt), mo in zip(ilines, imeta, chk.drv.ask(ilines) if chk.lean_ok else [None] * len(ilines)):
+        chk.case(cid, ln, impl, mo, errs, nt)
+
+    # (b) canonical rendering of region lists: model's renderer = '%d:%d' joined by commas, and parses back
+    rng = chk.rng('render')
+    rlines, rmeta = [], []
+    for i in range(3000 if chk.thorough else 400):
+        rs = c15_cli.gen_regions(rng)
+        if rng.random() < 0.2:
+            rs = [(rng.randint(-10 ** 9, 10 ** 9), rng.randint(-10 ** 12, 10 ** 12)) for _ in range(rng.choice([1, 2]))]
+        text = ','.join('%d:%d' % r for r in rs)
+        impl = enc(text) + ' regions ' + enc([list(r) for r in rs])
+        errs = [] if c15_cli.documented_regions(text) == rs else ['rendering %r is not read back as %r' % (text, rs)]
+        rlines.append(line('render', [list(r) for r in rs]))
+        rmeta.append(('render-%d' % i, impl, errs, len(rs) > 1))
+    for ln, (cid, impl, errs, nt), mo in zip(rlines, rmeta, chk.drv.ask(rlines) if chk.lean_ok else [None] * len(rlines)):
+        chk.case(cid, ln, impl, mo, errs, nt)
+
+    # (c) the extracted parser + statements on random option values
+    rng = chk.rng('cli')
+    runner = c15_cli.make_runner(CLI_X, vermouth, ARB, selectors, enc)
+    clines, cmeta = [], []
+    for i in range(12000 if chk.thorough else 1500):
+        o = c15_cli.gen_cli_options(rng)
+        argv = c15_cli.argv_of(rng, o)
+        if not all(c15_cli.ascii_only(x) for x in argv):
+            chk.count('cli_excluded_non_ascii')
+            continue
+        probes = c15_cli.probes_for(rng, o['eunit'])
+        impl, info = runner(argv, probes)
+        errs = c15_cli.cli_oracle(o, probes, impl, info)
+        head = impl.split(' ')[0]
+        chk.count('cli_outcome_' + head)
+        chk.count('cli_unit_' + o['unit_kind'])
+        if head == 'proc':
+            chk.count('cli_domain_kind_' + info['kind'])
+        clines.append(cli_line(o, probes))
+        cmeta.append(('cli-%d' % i, impl, errs,
+                      (head == 'proc' and info['kind'] == '2' and 1 in info['table'] and 0 in info['table'])
+                      or head in ('errint', 'errfaulty')))
+    for ln, (cid, impl, errs, nt), mo in zip(clines, cmeta, chk.drv.ask(clines) if chk.lean_ok else [None] * len(clines)):
+        chk.case(cid, ln, impl, mo, errs, nt)
+
 # ---- length rounding: model vs numpy on all small squared distances -----------------------------
 rng = chk.rng('len5')
 d2s = list(range(0, 3000 if chk.thorough else 600)) + [rng.randrange(10 ** 6) for _ in range(3000 if chk.thorough else 400)]
@@ -970,4 +1115,96 @@ for d2, ln, val, mo in zip(d2s, llines, arr, lmodels):
         errs.append('round(sqrt(%d)/256, 5) = %r, nearest 1e-5 multiple is %d' % (d2, val, len5_expected(d2)))
     chk.count('len5_cases')
     chk.case('len5-%d' % d2, ln, str(n5), mo, errs, False)
+
+# ---- (d) real command-line runs (done meanwhile in the forked child): processor built, networks produced ----------
+class Inter:
+    def __init__(self, atoms, parameters, rendered, meta):
+        self.atoms, self.parameters, self.rendered, self.meta = tuple(atoms), parameters, rendered, meta
+
+
+class Warn:
+    def __init__(self, msg):
+        self.msg = msg
+
+    def getMessage(self):
+        return self.msg
+
+
+if CLI_HANDLE is not None:
+    cli_results = c15_cli.collect_cli_runs(CLI_HANDLE)
+    if cli_results is None or len(cli_results) != len(CLI_RUNS):
+        chk.case('clirun-all', 'martinize2 -elastic ...', 'no result', None,
+                 ['the in-process command-line runs did not come back'], True)
+        cli_results = []
+    run_lines, run_meta, mol_cases = [], [], []
+    for i, (o, res) in enumerate(zip(CLI_RUNS, cli_results)):
+        argv = cli_argv(o)
+        probes = cli_probes(argv)
+        oc = res['outcome']
+        info = None
+        if res.get('proc'):
+            impl = res['proc']
+            info = dict(res['info'])
+            info['attrs'] = info['nums']
+        elif oc == 'exit 2':
+            impl = 'usage'
+        elif oc.startswith('exc ValueError: Faulty resid interval'):
+            impl, info = 'errfaulty', {'message': oc[len('exc ValueError: '):]}
+        elif oc.startswith('exc ValueError: invalid literal for int()'):
+            impl, info = 'errint', {'message': oc}
+        elif oc == 'end':
+            impl = 'noelastic'
+        else:
+            impl = oc
+        errs = c15_cli.cli_oracle(o, probes, impl, info)
+        if res.get('proc') and oc not in ('stop', 'end'):
+            errs.append('martinize2 %s ended with %s (%s)' % (' '.join(argv), oc, res['stderr'][-200:]))
+        if res.get('proc') and res['n_rb_calls'] != 1:
+            errs.append('ApplyRubberBand.run_system called %d times' % res['n_rb_calls'])
+        if res.get('proc') and (o['eunit'] == 'all') != (res['merged'] == 1 and len(res['mols']) == 1):
+            errs.append('-eunit %r: MergeAllMolecules called %d times, %d molecules afterwards'
+                        % (o['eunit'], res['merged'], len(res['mols'])))
+        chk.count('clirun_' + impl.split(' ')[0])
+        run_lines.append(cli_line(o, probes))
+        run_meta.append(('clirun-%d' % i, impl, errs, True))
+        if not res.get('proc') or res.get('mols') is None:
+            continue
+        nums = info['nums']
+        unit = 'molecule' if o['eunit'] is None else o['eunit']
+        dom = (['always'] if unit in ('molecule', 'all') else ['chain'] if unit == 'chain'
+               else ['regions', [list(r) for r in (c15_cli.documented_regions(unit) or [])]])
+        all_rendered = []
+        for j, m in enumerate(res['mols']):
+            ffv = m['ffvars']
+            bt = ffv.get('elastic_network_bond_type', ARB.DEFAULT_BOND_TYPE)
+            sep = int(o['ermd']) if o['ermd'] is not None else ffv.get('elastic_network_res_min_dist', ARB.DEFAULT_RMD)
+            if o['ermd'] is None and 'res_min_dist' in ffv and 'elastic_network_res_min_dist' not in ffv:
+                chk.count('clirun_force_field_defines_res_min_dist_%d_but_processor_reads_elastic_network_res_min_dist'
+                          % ffv['res_min_dist'])
+            p = {'names': info['names'], 'upper': float(nums['upper_bound']), 'lo': nums['lower_bound'],
+                 'a': nums['decay_factor'], 'pw': nums['decay_power'], 'base': nums['base_constant'],
+                 'minf': nums['minimum_force'], 'sep': sep, 'dom': dom, 'via': 'cli', 'bond_type': bt, 'expect_bt': bt,
+                 'expect_sep': sep}
+            spec = {'atoms': m['atoms'], 'edges': m['edges'], 'params': p}
+            rubber = [Inter(a, prm, rnd, meta) for a, prm, rnd, meta in m['rubber']]
+            all_rendered += [' '.join(b.rendered) for b in rubber]
+            real = (res['exc'], rubber, [Warn(w) for w in res['warnings']], m['intact'])
+            mol_cases.append(('clirun-%d-mol%d' % (i, j), spec, 'clirun', real))
+        if 'itps' in res:
+            written = [' '.join(prm) for text in res['itps'].values() for _, _, prm in c15_cli.itp_rubber_lines(text)]
+            chk.count('clirun_itp_rubber_lines', len(written))
+            if sorted(written) != sorted(all_rendered):
+                run_meta[-1][2].append('the written ITP lists %d rubber-band bonds with parameters %r..., the processor '
+                                       'produced %d with %r...' % (len(written), sorted(written)[:2], len(all_rendered),
+                                                                    sorted(all_rendered)[:2]))
+    for ln, (cid, impl, errs, nt), mo in zip(run_lines, run_meta, chk.drv.ask(run_lines) if chk.lean_ok else [None] * len(run_lines)):
+        chk.case(cid, ln, impl, mo, errs, nt)
+    mres = [evaluate(cid, spec, stream, real) for cid, spec, stream, real in mol_cases]
+    mres = [r for r in mres if r is not None]
+    mmod = chk.drv.ask([r[1] for r in mres]) if chk.lean_ok else [None] * len(mres)
+    for (cid, ln, impl, errs, nontriv, finding), mo in zip(mres, mmod):
+        if mo is not None and mo.startswith('error '):
+            mo = 'error'
+        chk.case(cid, ln, impl, mo, errs, bool(impl.startswith('bonds [ [')), finding=finding)
+
 chk.finish()
